@@ -42,6 +42,10 @@ type ParamCfg struct {
 	// PoolTenths: genesis balance of the rewards pool in tenths of a YOU (0 = the
 	// default of 1000 units + 1, which no bounded history can drain)
 	PoolTenths uint64
+	// ExtraChamber: number (0..2) of additional online senators (s2, s3) in genesis.  They never
+	// propose (no menu names them), so under a short InactivityWait they are slashed for
+	// inactivity together, in one period-end block
+	ExtraChamber uint64
 }
 
 var DefaultCfg = ParamCfg{StakingTrieFrequency: 2, MaxRewardsPeriod: 2, WithdrawDelay: 2, WithdrawRetention: 1, InactivityWait: 1000, PenaltyInactive: 1}
@@ -170,6 +174,9 @@ func Fix() *Fixture {
 			mk("h2", params.RoleHouse, 5, Unit(3, 2), params.ValidatorOnline, true), // three house validators: the equal split of the role pool leaves a residue
 			mk("h3", params.RoleHouse, 6, Unit(4, 3), params.ValidatorOnline, true),
 			mk("n1", params.RoleSenator, 4, Unit(6, 1), params.ValidatorOffline, false),
+			// s2, s3: in genesis only under ParamCfg.ExtraChamber
+			mk("s2", params.RoleSenator, 8, Unit(7, 13), params.ValidatorOnline, false),
+			mk("s3", params.RoleSenator, 9, Unit(9, 5), params.ValidatorOnline, false),
 			// z1: a house validator below one stake unit (MinSelfStakes of the house role is 0): Token > 0, Stake == 0
 			mk("z1", params.RoleHouse, 7, Unit(0, 500000000000000000), params.ValidatorOffline, false),
 		}
@@ -239,7 +246,8 @@ func (f *Fixture) Genesis() *core.Genesis {
 	g.Alloc[f.KClear] = core.GenesisAccount{Balance: big.NewInt(0), Code: []byte{0x60, 0x00, 0x60, 0x00, 0x55, 0x00},
 		Storage: map[common.Hash]common.Hash{{}: common.BigToHash(big.NewInt(1))}}
 	for _, v := range f.Vals {
-		if !v.Genesis {
+		extra := (v.Name == "s2" && curCfg.ExtraChamber >= 1) || (v.Name == "s3" && curCfg.ExtraChamber >= 2)
+		if !v.Genesis && !extra {
 			continue
 		}
 		g.Validators[v.Main] = core.GenesisValidator{Name: v.Name, OperatorAddress: v.Operator.Addr, Coinbase: v.Coinbase,
@@ -311,7 +319,7 @@ func openNodeOpt(db *youdb.MemDatabase, pendingEv []staking.Evidence, ucon, plai
 	if err != nil {
 		panic(err)
 	}
-	bc.VerifWaitIndexersActive() // else Stop() leaves the indexers' event loops (and the chain) behind
+	bc.VerifWaitIndexersActive()  // else Stop() leaves the indexers' event loops (and the chain) behind
 	st := staking.NewStaking(nil) // nil mux: no background goroutines; evidences are injected
 	if !plain {
 		st.Register(bc.Processor())
